@@ -183,7 +183,7 @@ def run(ctx):
                                                     "Wide": False}, "sim", num=1 if q else 30, depth=205, seed=ctx.seed * 7 + 3,
                       workers=nw, timeout=1500)
     r, s2 = L.generate(ctx, "Dict.tla", "dict_rehash", {"MaxSteps": 14, "Keys": list(range(6)), "Vals": [1, 2, 3], "BulkMax": 300,
-                                                       "Wide": False}, "sim", num=1 if q else 12, depth=20, seed=ctx.seed * 7 + 4,
+                                                       "Wide": False}, "sim", num=8 if q else 24, depth=20, seed=ctx.seed * 7 + 4,
                       workers=nw, timeout=1500)
     ctx.cov["dict_random_sequences"] = len(s1) + len(s2)
     dct = ex + s1 + s2
